@@ -193,6 +193,9 @@ def impl(case):
         kw["retries"] = None          # retries=None passed explicitly: the same as not passing it
     poolp = build_policy(case["pool"])
     body = b"payload" if case["body"] else None
+    if body and case.get("bodyfile"):
+        import io
+        body = io.BytesIO(body)          # a seekable file at offset 0: re-sent from its recorded start on every body-preserving hop
     if case.get("chunked"):
         kw["chunked"] = True
     with installed(net):
@@ -233,7 +236,7 @@ def impl(case):
 def in_model_domain(case):
     """the model knows requests with and without a body, not how the body is framed: a body sent chunked is judged by the oracle only;
     so are chains in which an attempt fails on the connection before it is answered (retries are C04's subject)"""
-    return not case.get("chunked") and not any(h.get("fault") for h in case["script"])
+    return not case.get("chunked") and not case.get("bodyfile") and not any(h.get("fault") for h in case["script"])
 
 
 # ---------------------------------------------------------------- oracle
@@ -474,6 +477,15 @@ def cases(rng, tier):
                     out.append(dict(c, explicit_none=True))      # retries=None passed explicitly at the request
                 if p[0] in ("none", "int") and place == "kw":
                     out.append(dict(c, chunked=True))             # the body sent chunked: after a 303 nothing of that may remain
+    # a seekable file body at offset 0 through chains of body-preserving redirects: every hop carries the body
+    for kind in ("manager", "proxy", "pool"):
+        for codes in ((307, 308), (308, 307, 307), (301, 307), (302, 308, 307), (307,)):
+            for method in ("POST", "PUT"):
+                ch = [{"status": c, "to": ["http", "a.example", None, "/f%d" % i], "form": "abs"} for i, c in enumerate(codes)] + [{"status": 200, "to": None, "form": "abs"}] * 3
+                if method == "POST" and codes[0] in (301, 302):
+                    continue          # (a POST is rewritten to GET by 301/302: PUT keeps its body)
+                out.append({"kind": kind, "redirect": True, "assert_same_host": kind == "pool", "start": ["http", "a.example", None, "/"], "method": method,
+                            "body": True, "bodyfile": True, "headers": [["X-Keep", "1"]], "hkind": "dict", "kw": ["retry", {"total": 8, "redirect": 8}], "pool": ["none"], "script": ch})
     # an attempt that fails on the connection before it is answered, then a redirect: the retry carries the same redirect settings
     F = {"fault": "eof", "status": 0, "to": None, "form": "abs"}
     R = lambda i: {"status": 302, "to": ["http", "a.example", None, "/t%d" % i], "form": "abs"}
